@@ -97,13 +97,17 @@ class ANSI:
                     char = yield
 
                     # Construct number
-                    if char.isdigit():
+                    # (ASCII digits only: `str.isdigit` also accepts e.g. "\xb2",
+                    # which `int` rejects.)
+                    if char in "0123456789":
                         current += char
 
                     # Eval number
                     else:
                         # Limit and save number value
-                        params.append(min(int(current or 0), 9999))
+                        # (Five significant digits decide the comparison;
+                        # `int` refuses very long digit strings.)
+                        params.append(min(int(current.lstrip("0")[:5] or 0), 9999))
 
                         # Get delimiter token if present
                         if char == ";":
